@@ -477,7 +477,10 @@ V('n-exit-fstrings', ['C03', 'C07', 'C06'], [(S, """        moveZcmd = "G0 F{f} 
             z=plainDecimal(newZ)
         )""", """        feed = plainDecimal(self.feedRate / self.feedRateUnitMultiplier)
         moveZcmd = "G0 F%s Z%s" % (feed, plainDecimal(newZ))""")], neutral=True)
-V('n-containspoint-rewritten', ['C17', 'C12', 'C01'], [(RR, "        return (x >= self.x1) and (x <= self.x2) and (y >= self.y1) and (y <= self.y2)", "        return not (x < self.x1 or x > self.x2 or y < self.y1 or self.y2 < y)")], neutral=True)
+# a De Morgan rewrite of the rectangle test is NOT neutral: with a NaN corner every comparison is False, the original answers
+# False and the rewritten form True (C17.R5, added in round 9, reports it - the entry used to be listed as neutral)
+V('c17-containspoint-de-morgan-nan', ['C17', 'C12'], [(RR, "        return (x >= self.x1) and (x <= self.x2) and (y >= self.y1) and (y <= self.y2)", "        return not (x < self.x1 or x > self.x2 or y < self.y1 or self.y2 < y)")])
+V('n-containspoint-reordered', ['C17', 'C12', 'C01'], [(RR, "        return (x >= self.x1) and (x <= self.x2) and (y >= self.y1) and (y <= self.y2)", "        return (self.y1 <= y) and (y <= self.y2) and (self.x1 <= x) and (self.x2 >= x)")], neutral=True)
 V('n-on-event-elif-chain', ['C11', 'C13', 'C10'], [(P, """        elif (event in (
                 Events.PRINT_DONE,
                 Events.PRINT_FAILED,
@@ -877,3 +880,54 @@ V('n-offline-buffer-emptied-in-place-before', ['C14', 'C20'], [(SP, """        s
     def isStreaming""", """        del self.bufferedCommands[:]
 
     def isStreaming""")], neutral=True)
+# ---------------------------------------------------------------- round 17 / 18 rules
+V('c09-squared-distance-with-power', ['C09', 'C17'], [(CR, """        return self.r >= math.hypot(x - self.cx, y - self.cy)
+""", """        return (self.r >= 0) and (self.r ** 2 >= (x - self.cx) ** 2 + (y - self.cy) ** 2)
+""")])
+V('c16-full-circle-needs-end-point', ['C16'], [(H, """        radius = None
+        i = 0
+        j = 0
+
+        for label, value in self.gcodeParser.parse(cmd).parameterItems():
+            if (value is not None):
+                if (label == "X"):
+                    x = value
+                elif (label == "Y"):
+                    y = value
+""", """        radius = None
+        i = 0
+        j = 0
+        hasEndPoint = False
+
+        for label, value in self.gcodeParser.parse(cmd).parameterItems():
+            if (value is not None):
+                if (label == "X"):
+                    x = value
+                    hasEndPoint = True
+                elif (label == "Y"):
+                    y = value
+                    hasEndPoint = True
+"""), (H, """        if (i or j):
+            xyPairs = self.planArc(x, y, i, j, clockwise)""", """        if ((i or j) and hasEndPoint):
+            xyPairs = self.planArc(x, y, i, j, clockwise)""")])
+V('c18-blank-parameters-dropped', ['C18'], [(G, """            if (self._parameters is not None):
+                pieces.append(self._parameters)
+""", """            if (self._parameters is not None) and (self._parameters.strip()):
+                pieces.append(self._parameters)
+""")])
+V('c19-parse-keeps-cached-word-map', ['C19', 'C18', 'C20'], [(G, """        self._updateParameters(match.group(9))
+""", """        self._parameters = match.group(9)
+""")])
+V('c07-g92-adds-native-amount-to-logical', ['C07', 'C04', 'C05'], [(R, """            eAxis.current += amount
+
+            returnCommands.append(
+                # Set logical extruder position
+                "G92 E{e}".format(e=plainDecimal(eAxis.nativeToLogical()))
+            )
+
+            eAxis.current -= amount
+""", """            returnCommands.append(
+                # Set logical extruder position
+                "G92 E{e}".format(e=plainDecimal(eAxis.nativeToLogical() + amount))
+            )
+""")])
